@@ -1813,10 +1813,10 @@ func TestVerifC07(t *testing.T) {
 // spec, the implementation's verdict and choice (`alloc … mode 1`: checked for consistency with the model's ledger),
 // and the committed allocation.
 //
-// Off by default (decisions pending, see props/C07.json):
-//   VERIF_C07_HETERO=1  GPUs of one node expose different resource names (a device without gpu-core / gpu-memory);
-//                       quotav1.LessThanOrEqual ignores a requested name the device does not expose
-//                       -> fingerprint C07:missing-dimension-accepted
+//   1 case in 8 (VERIF_C07_HETERO=1: all, =0: none): GPUs of one node expose different resource names (a device
+//                       without gpu-core / gpu-memory-ratio); quotav1.LessThanOrEqual ignores a requested name the device
+//                       does not expose -> fingerprint C07:missing-dimension-accepted (OPEN KNOWN FINDING)
+// Off by default (outside the property's quantifier, main agent's decision):
 //   VERIF_C07_STALE=1   the annotation that reaches the informer differs from what Reserve recorded (foreign edit), or
 //                       changes in the update that reports the pod terminated; removal subtracts the caller-supplied
 //                       amounts -> fingerprint C07:caller-supplied-removal
@@ -1857,7 +1857,7 @@ func TestVerifC07Path(t *testing.T) {
 	if h == nil {
 		t.Skip("VERIF_OUT not set")
 	}
-	hetero := os.Getenv("VERIF_C07_HETERO") == "1"
+	heteroEnv := os.Getenv("VERIF_C07_HETERO") // "1": every case, "0": never, unset: 1 case in 8 (open known finding)
 	stale := os.Getenv("VERIF_C07_STALE") == "1"
 	node := &corev1.Node{ObjectMeta: metav1.ObjectMeta{Name: c07Node}}
 	suit := newPluginTestSuit(t, []*corev1.Node{node})
@@ -1874,6 +1874,12 @@ func TestVerifC07Path(t *testing.T) {
 		r := h.Begin(idx)
 		if r == nil {
 			continue
+		}
+		hetero := heteroEnv == "1" || (heteroEnv != "0" && r.Chance(1, 8))
+		if hetero {
+			h.Tag("stream:heterogeneous")
+		} else {
+			h.Tag("stream:homogeneous")
 		}
 		pl.nodeDeviceCache = newNodeDeviceCache()
 		c := &c07Case{h: h, r: r, cache: pl.nodeDeviceCache, exact: true, histX: true, sched: true, nextPod: 1, cur: &c07Ledger{rows: map[[2]int]*c07Row{}, pods: map[[2]int]map[int]c07Vals{}}}
@@ -2013,10 +2019,6 @@ func TestVerifC07Path(t *testing.T) {
 						delete(qual, m) // unhealthy / zero device
 					}
 				}
-				fp := "C07:alloc-unsound:not-enough-free"
-				if hetero {
-					fp = "C07:missing-dimension-accepted"
-				}
 				if !res.ok {
 					if len(qual) >= cnt {
 						h.Fail("C07:alloc-incomplete", "request %v x%d refused (%v) although GPUs %v qualify", req, cnt, fst, qual)
@@ -2024,6 +2026,7 @@ func TestVerifC07Path(t *testing.T) {
 					continue
 				}
 				seen := map[int]bool{}
+				onQuirk := false
 				for _, m := range res.minors {
 					if seen[m] {
 						h.Fail("C07:alloc-unsound:duplicate-minor", "minor %d returned twice", m)
@@ -2031,7 +2034,23 @@ func TestVerifC07Path(t *testing.T) {
 					seen[m] = true
 					if !qual[m] {
 						row := before.row(0, m)
-						h.Fail(fp, "GPU %d chosen for per-GPU request %v: free %v total %v used %v", m, req, row.f, row.t, row.u)
+						// the open known finding, and only it: the device does not expose a requested non-zero resource name
+						// and fits in every name it does expose
+						rr := before.rows[[2]int{0, m}]
+						missing, restFits := false, row.t != (c07Vals{})
+						for k := 0; k < c07D; k++ {
+							if req.val(k) > 0 && rr != nil && rr.hasF && !rr.fp[k] {
+								missing = true
+							} else if req.val(k) > row.f[k] {
+								restFits = false
+							}
+						}
+						if hetero && missing && restFits {
+							onQuirk = true
+							h.Fail("C07:missing-dimension-accepted", "GPU %d chosen for per-GPU request %v although it does not expose every requested resource name: free %v total %v used %v", m, req, row.f, row.t, row.u)
+						} else {
+							h.Fail("C07:alloc-unsound:not-enough-free", "GPU %d chosen for per-GPU request %v: free %v total %v used %v", m, req, row.f, row.t, row.u)
+						}
 					}
 				}
 				if len(res.minors) != cnt {
@@ -2052,8 +2071,8 @@ func TestVerifC07Path(t *testing.T) {
 					c.noteAdd(tt, id, g[tt], before)
 				}
 				kind := "commit"
-				if hetero {
-					kind = "raw-add"
+				if onQuirk {
+					kind = "raw-add" // rests on the known finding: the commit puts an amount on a name the device does not expose
 				}
 				c.cur = c.emitLedger()
 				c.checkLedger(kind, before, c.cur)
